@@ -352,9 +352,10 @@ func tokenizeForSemantics(content string) []semanticToken {
 			continue
 		}
 		raw := content[start:end]
-		trimmedLeft := strings.TrimLeft(raw, " \t")
+		// free text is trimmed the way the lexer trims it: Unicode blanks included
+		trimmedLeft := strings.TrimLeftFunc(raw, unicode.IsSpace)
 		start += len(raw) - len(trimmedLeft)
-		raw = strings.TrimRight(trimmedLeft, " \t\r")
+		raw = strings.TrimRightFunc(trimmedLeft, unicode.IsSpace)
 		if raw == "" {
 			continue
 		}
